@@ -374,7 +374,7 @@ def run_property(ctx, prop, n_quick, n_thorough, extra=None, assumptions=None, e
     n = n_quick if ctx.tier == "quick" else n_thorough
     corpus = load_corpus(prop)
     # (C13's direct store-vs-store comparison is defined for clock steps of 0 or >= the SQLite sweep interval only: no scenarios there)
-    hs = corpus + [h for h in G.gen_scenarios(rng) if prop != "C13" or h.get("c13_ok")] + gen_for(prop, rng, n)
+    hs = corpus + [h for h in G.gen_scenarios(rng) if (prop != "C13" or h.get("c13_ok")) and (not h.get("only") or prop in h["only"])] + gen_for(prop, rng, n)
     if prop in ("C05", "C02", "C13"):
         # > 1024 inserts on one store: the memory backend's order-log compaction
         hs += [G.gen_long_history(rng) for _ in range(1 if ctx.tier == "quick" else 4)]
